@@ -103,18 +103,46 @@ func (s *server) taken() []seen {
 }
 
 // serve runs one raw request through the mux, recovering panics of generated code.
+// failingReader delivers data and then fails the way a connection cut mid-body does.
+type failingReader struct {
+	data []byte
+	pos  int
+}
+
+func (f *failingReader) Read(p []byte) (int, error) {
+	if f.pos >= len(f.data) {
+		return 0, io.ErrUnexpectedEOF
+	}
+	n := copy(p, f.data[f.pos:])
+	f.pos += n
+	return n, nil
+}
+
+func (f *failingReader) Close() error { return nil }
+
 func (s *server) serve(method, target string, hdr http.Header, body []byte) (rec *httptest.ResponseRecorder, panicked string) {
+	return s.serveBody(method, target, hdr, body, false)
+}
+
+// serveBody is serve; with cut, the body reader fails with an unexpected EOF after delivering body.
+func (s *server) serveBody(method, target string, hdr http.Header, body []byte, cut bool) (rec *httptest.ResponseRecorder, panicked string) {
 	var rd io.Reader
 	if body != nil {
 		rd = bytes.NewReader(body)
+	}
+	if cut {
+		rd = &failingReader{data: body}
 	}
 	req, err := http.NewRequest(method, "http://verif.test"+target, rd)
 	if err != nil {
 		return nil, "cannot build request: " + err.Error()
 	}
 	req.RequestURI = target
-	if body == nil {
+	if body == nil && !cut {
 		req.Body = http.NoBody // a real server never hands out a nil Body
+	}
+	if cut {
+		req.ContentLength = int64(len(body)) + 64 // the peer announced more than it sent
 	}
 	for k, vs := range hdr {
 		req.Header[k] = append([]string{}, vs...)
